@@ -93,4 +93,39 @@ def withOffsets (t : String) (ds : List Day) : Except MErr (List Day) :=
   | .error e => .error e
   | .ok lots => .ok (ds.map (fun d => { d with offset := offsetFor d.ord lots }))
 
+
+/-! ### ghost accounting of the pre-pass: which events "took effect" (used by the C03 theorems and by the
+    driver's `eff` command) -/
+
+/-- what one event contributes: its signed amount when shares are held at that moment, else nothing -/
+def effOf (adj : Rat) (lots : List Lot) : Rat := if totalHeld lots = 0 then 0 else adj
+
+/-- accumulations of a day, in line order -/
+def accStep (ls : List Lot) (v : Rat) : List Lot := if ls.isEmpty then ls else applyAdj v ls
+
+def effAccs : List Rat → List Lot → Rat
+  | [], _ => 0
+  | v :: vs, lots => effOf v lots + effAccs vs (accStep lots v)
+
+/-- capital returns of a day that are not refused -/
+def effCaps : List (Nat × Rat) → List Lot → Rat
+  | [], _ => 0
+  | (_, net) :: cs, lots => effOf (-net) lots + effCaps cs (applyAdj (-net) lots)
+
+/-- the signed amounts of the day's events that took effect -/
+def effDay (lots : List Lot) (d : Day) : Rat :=
+  effAccs d.accs lots + effCaps d.caps (d.accs.foldl accStep lots)
+
+/-- the signed amounts of all events of the history that took effect -/
+def effAll (t : String) : List Lot → List Day → Rat
+  | _, [] => 0
+  | lots, d :: ds =>
+    match prepassDay t lots d with
+    | .error _ => 0
+    | .ok lots' => effDay lots d + effAll t lots' ds
+
+/-- Σ quantity × price + fees over the days' purchases -/
+def purchasesOf (ds : List Day) : Rat :=
+  rsum (ds.map (fun d => match d.buy with | some b => b.q * b.p + b.f | none => 0))
+
 end Cgt
